@@ -22,7 +22,21 @@ A RESIZE MAY LAND WHILE A MEMOISED BODY RUNS: the op TSR c r x y is the
 terminal, then the terminal becomes (c, r, x, y), then the body returns).  The value
 computed for the old size must not be served for the new one: every 8th history is built
 around [(probe; plain resize;) probe that has to compute, with a resize to another size
-landing in its body; probe]."""
+landing in its body; probe].
+
+RESULTS THAT ARE None: sequential histories of calls / invalidations of a probe decorated
+with the REAL `utils.cached` whose body returns None / 0 / "" / (None, None) / tuples per
+scripted argument tuple, body runs counted; judged against the micro-step model of
+cached_wrapper run by one thread, and on the observations alone: at most one body run per
+argument tuple per invalidation epoch (CachesTie.pcheck).
+
+SWAP TOGGLES UNDER THREAD SCHEDULES: `utils._cell_size_lock` is replaced by a re-entrant
+lock reporting the toggling thread's lock events, so that a second thread's
+get_cell_size() runs exactly before / at the acquire / at the release of
+enable_/disable_win_size_swap(), or the toggling thread runs while the getter is inside
+its lock region; judged against Caches.wstep under the same schedule and, on observations
+alone: a get_cell_size() made after both threads finished equals the twin's fresh value
+for the final setting (CachesTie.scheck)."""
 from __future__ import annotations
 
 import copy
@@ -784,7 +798,14 @@ def run(ctx):
                 "XTVERSION or TERM_PROGRAM, colours or not, no tty).  After every op: return value + body counters; "
                 "for every getter additionally the value of a twin package copy run from empty caches.  "
                 "Non-trivial: a tty, >= 2 getter calls and >= 1 state change; distinct by full case hash.  "
-                "~15% of histories break the side condition on purpose (model compared, property not judged).",
+                "~15% of histories break the side condition on purpose (model compared, property not judged).  "
+                "PLUS (extra.probe_histories) sequential histories of 2-14 calls / invalidations of a probe under the real "
+                "utils.cached over 8 argument tuples (positional, keyword, None arguments) whose body returns None (45%) or one "
+                "of 9 other objects incl. the falsy 0, '', False, (), 0.0, (None, None), runs counted per command; PLUS "
+                "(extra.swap_schedules) deterministic two-thread schedules: programs of 1-3 enable_/disable_win_size_swap calls "
+                "x initial flag x warm/cold cache x the point at which the other thread's get_cell_size() runs (before, after, "
+                "at the acquire / the release of the j-th effective toggle, or the toggler running while the getter is inside "
+                "its ioctl), on terminals whose swapped and unswapped cell sizes differ.",
         "samples": [describe(c) for c in cases[:2] + cases[14:15] + cases[len(CORPUS) - 4:len(CORPUS) - 3] + cases[len(CORPUS):len(CORPUS) + 3]],
         "histogram": hist,
         "mismatches": mismatches,
@@ -799,6 +820,10 @@ def run(ctx):
             "a resize during a memoised computation lands after the body has looked at the terminal (the body's value is "
             "the one for the size the wrapper read before it); a body that reads the terminal again after the resize is "
             "not modelled",
+            "swap toggles under concurrency: the terminal is not resized while toggles and get_cell_size calls interleave; "
+            "get_cell_size's double acquisition of _cell_size_lock (the lock-swap protocol, C14) is modelled as one "
+            "acquisition; the statement read and the flag write of a toggle, and the flag read and the cache write of "
+            "get_cell_size, are separate micro-steps",
             "aborted computations: the exception is raised inside query_terminal (request write, tcsetattr, or the wait "
             "for the reply); an abort at other points (inside the ioctl, between Python statements by an asynchronous "
             "signal) is not modelled",
@@ -812,6 +837,12 @@ def run(ctx):
             "termios.error from tcsetattr(TCSAFLUSH), once per armed call",
             "resize during a body: the terminal_size_cached probe's body itself sets the scripted terminal to the new "
             "size after reading it (single-threaded, deterministic stand-in for a SIGWINCH-time change during a slow body)",
+            "swap schedules: utils._cell_size_lock is replaced by a wrapper around a real RLock that runs the other thread to "
+            "completion at the chosen lock event of the toggling thread (or starts the toggling thread from inside the "
+            "getter's ioctl and waits until it reaches the lock); the schedule given to the model is computed from the "
+            "unchanged code's step counts",
+            "probe histories: the probe's body counts its runs and returns scripted objects; returned objects are "
+            "identified by identity",
             "thread races use real threads (outcome is schedule-independent on correct code); CPython's RLock is trusted",
         ],
         "extra": extra,
